@@ -108,6 +108,14 @@ func runC05(c *fw.Case) (o fw.Outcome) {
 		ue.AuthenticationSubs = tglib.GetAuthSubscription(kS, variant.opc, variant.op)
 		gotRes := ue.DeriveRESstarAndSetKey(ue.AuthenticationSubs, autnA, append([]byte(nil), rnd...), snName, mnc, mcc)
 		o.Count("derivations", 1)
+		if m := retainCheck("res-star", gotRes, o.Input); m != "" {
+			o.Fail("retained-result-changed", "%s", m)
+			return
+		}
+		if m := retainCheck("kamf", ue.Kamf, o.Input); m != "" {
+			o.Fail("retained-result-changed", "%s", m)
+			return
+		}
 		_ = vi
 		switch {
 		case !bytes.Equal(gotRes, wantRes):
